@@ -1,2 +1,101 @@
-(* placeholder, theorems follow *)
-From QV Require Import Lib.Tac Sys.Trace Sys.MonC12.
+(** C12 — Sending respects the congestion window; loss accounting balances (component level).
+    Property theorems only: each is closed by [exact] of a lemma proved under Proofs/, followed by
+    [Print Assumptions]. Models: Model/NewReno.v (exact), Model/Cubic.v, Model/Bbr.v (relational:
+    float outcomes are oracle values, the theorems quantify over all of them), tied to the code by
+    the correspondence check on every run. *)
+From QV Require Import Lib.Tac Lib.Chk Lib.Corr Proofs.ChkProofs.
+From QV Require Model.NewReno Model.Cubic Model.Bbr Model.SentPackets Model.InFlight.
+From QV Require Proofs.NewRenoProofs Proofs.CubicProofs Proofs.BbrProofs Proofs.InFlightProofs.
+Open Scope Z_scope.
+
+(** controller_floor. A history is a list of calls (opcode :: u64 arguments) each paired with the
+    outcome(s) of the float computations of that call, universally quantified. [steps] returns
+    [None] exactly when a u64 operation overflows (the debug build panics). *)
+Theorem C12_controller_floor_newreno : forall w m l s',
+  0 <= m -> 2 * m <= w ->
+  Forall (fun p => wf_op (fst p)) l ->
+  NewReno.steps (NewReno.build w m) l = Some s' ->
+  2 * NewReno.mtu s' <= NewReno.window s'.
+Proof. exact NewRenoProofs.newreno_floor. Qed.
+Print Assumptions C12_controller_floor_newreno.
+
+Theorem C12_controller_floor_cubic : forall w m l s',
+  0 <= m -> 2 * m <= w ->
+  Forall (fun p => wf_op (fst p)) l ->
+  Cubic.steps (Cubic.build w m) l = Some s' ->
+  2 * Cubic.mtu s' <= Cubic.window (Cubic.cur s').
+Proof. exact CubicProofs.cubic_floor. Qed.
+Print Assumptions C12_controller_floor_cubic.
+
+(** BBR as found ([fx = false]) violates the floor (DESIGN §7 F7; replayed on the real code and
+    repaired by the commit "fix: BBR keeps the recovery window at or above the minimum window when
+    the MTU grows"). [Bbr.FIXED] records which behaviour the correspondence currently ties. *)
+Theorem C12_controller_floor_bbr_refuted_before_fix :
+  exists w m l s' r,
+    0 <= m /\ 2 * m <= w /\ Forall (fun p => wf_op (fst p)) l /\
+    Bbr.steps false (Bbr.build w m) l = Some s' /\ Bbr.window s' r < 2 * Bbr.mtu s'.
+Proof. exact BbrProofs.bbr_floor_refuted_before_fix. Qed.
+Print Assumptions C12_controller_floor_bbr_refuted_before_fix.
+
+Theorem C12_controller_floor_bbr : forall w m l s' r,
+  0 <= m -> 2 * m <= w ->
+  Forall (fun p => wf_op (fst p)) l ->
+  Bbr.steps Bbr.FIXED (Bbr.build w m) l = Some s' ->
+  2 * Bbr.mtu s' <= Bbr.window s' r.
+Proof. exact BbrProofs.bbr_floor_fixed. Qed.
+Print Assumptions C12_controller_floor_bbr.
+
+(** in_flight_is_sum. A history is a list of calls on one path and one packet-number space:
+    [0; pn; size; ack_eliciting; generation] = PathData::sent, [1|2|3; pn] = acked / lost /
+    abandoned (PacketSpace::take + PathData::remove_in_flight), [4] = the space is discarded.
+    [steps] returns [inr code] where the debug build would panic; code 2 is an underflow of an
+    in-flight counter. For every history whose packets carry the path's generation (as
+    PacketBuilder stamps them): the counters equal the sums over the tracked packets in every
+    reachable state, and the debit never underflows. *)
+Theorem C12_in_flight_is_sum : forall l,
+  Forall InFlightProofs.op_wf l ->
+  match InFlight.steps InFlight.init l with
+  | inl s => InFlight.bytes s = InFlight.sum_size (SentPackets.ents (InFlight.sp s)) /\
+             InFlight.aec s = InFlight.count_ae (SentPackets.ents (InFlight.sp s))
+  | inr e => e <> 2
+  end.
+Proof. exact InFlightProofs.in_flight_is_sum. Qed.
+Print Assumptions C12_in_flight_is_sum.
+
+Theorem C12_all_acked_implies_zero : forall l s,
+  Forall InFlightProofs.op_wf l -> InFlight.steps InFlight.init l = inl s ->
+  SentPackets.ents (InFlight.sp s) = [] -> InFlight.bytes s = 0 /\ InFlight.aec s = 0.
+Proof. exact InFlightProofs.all_acked_implies_zero. Qed.
+Print Assumptions C12_all_acked_implies_zero.
+
+(** Each packet leaves the tracked set exactly once: after a removal that found the packet
+    (code 1 = debited, 2 = other generation), removing the same number again finds nothing and
+    changes nothing — in every reachable state. *)
+Theorem C12_leaves_once : forall l s pn code s',
+  InFlight.steps InFlight.init l = inl s -> InFlight.take s pn = inl (code, s') -> code <> 0 ->
+  InFlight.take s' pn = inl (0, s').
+Proof. exact InFlightProofs.leaves_once_reachable. Qed.
+Print Assumptions C12_leaves_once.
+
+(** Non-vacuity: reachable non-trivial states. NewReno after a loss at window 12000 with the
+    float product 6000, then an MTU that more than doubles; the F7 history on the repaired BBR. *)
+Example C12_newreno_example :
+  match NewReno.steps (NewReno.build 12000 1200)
+          [([4; 20; 15; 0; 0; 0], 6000); ([6; 4000], 0); ([4; 30; 25; 1; 0; 0], 0)] with
+  | Some s => (NewReno.window s, NewReno.ssthresh s, NewReno.mtu s) = (8000, 8000, 4000)
+  | None => False
+  end.
+Proof. vm_compute. reflexivity. Qed.
+Example C12_bbr_example :
+  match Bbr.steps true (Bbr.build 12000 1200) BbrProofs.f7_history with
+  | Some s' => (Bbr.window s' 900, Bbr.mtu s', Bbr.mode s', Bbr.rec s') = (12000, 3000, 2, 2)
+  | None => False
+  end.
+Proof. exact BbrProofs.f7_history_fixed. Qed.
+Example C12_inflight_example :
+  match InFlight.steps InFlight.init
+          [[0; 1; 1200; 1; 7]; [0; 2; 40; 0; 7]; [0; 4; 0; 0; 7]; [2; 1]; [1; 1]; [3; 2]] with
+  | inl s => (InFlight.bytes s, InFlight.aec s, length (SentPackets.ents (InFlight.sp s))) = (0, 0, 1%nat)
+  | inr _ => False
+  end.
+Proof. vm_compute. reflexivity. Qed.
